@@ -15,24 +15,36 @@ NUM_ARRAYS = [[], [0], [1, 2], [2, -1], [1, 1], [Fraction(1, 2), 0]]
 BOOL_ARRAYS = [[], [True], [False, True], [False, False]]
 STR_ARRAYS = [[], ['"a"'], ['"a"', '"b"'], ['"b"', '"b"']]
 
+# "Wide" pools: values outside the grid (larger magnitudes, other fractions, longer arrays, other strings).
+# A few valuations drawn from them are appended to every grid, so that a rewrite that is only wrong away
+# from {-1, 0, 1, 2, 1/2} or only for arrays with three or more elements is still visible.
+WIDE_NUM_POOL = [3, -2, 10, Fraction(1, 3), 7, Fraction(-1, 2), 100, Fraction(5, 2), -3, 4]
+WIDE_STR_POOL = ['""', '"ab"', '"A"', '"a b"']
+WIDE_NUM_ARRAYS = [[1, 2, 3], [3, 3, 3], [0, 0, 1], [-2, 10, Fraction(1, 3), 7], [5], [2, 1, 0]]
+WIDE_BOOL_ARRAYS = [[True, True, False], [False, True, True, True], [True, True, True]]
+WIDE_STR_ARRAYS = [['"a"', '"b"', '"a"'], ['""'], ['"ab"', '"a"', '"b"']]
 
-def pool_for(ft):
+
+def pool_for(ft, wide=False):
     k = ft[0]
     if k == 'bool':
         return BOOL_POOL
     if k == 'num':
-        return NUM_POOL
+        return WIDE_NUM_POOL if wide else NUM_POOL
     if k == 'str':
-        return STR_POOL
+        return WIDE_STR_POOL if wide else STR_POOL
     if k == 'arr':
         ek = ft[1][0]
         n = ft[2]
-        base = {'bool': BOOL_ARRAYS, 'num': NUM_ARRAYS, 'str': STR_ARRAYS}.get(ek)
+        if wide:
+            base = {'bool': WIDE_BOOL_ARRAYS, 'num': WIDE_NUM_ARRAYS, 'str': WIDE_STR_ARRAYS}.get(ek)
+        else:
+            base = {'bool': BOOL_ARRAYS, 'num': NUM_ARRAYS, 'str': STR_ARRAYS}.get(ek)
         if base is None:
             return None
         if n >= 0:
             # fixed-length arrays have exactly n elements
-            elem = pool_for(ft[1])
+            elem = pool_for(ft[1], wide)
             return [[elem[(i + s) % len(elem)] for i in range(n)] for s in range(min(len(elem), 4))]
         return base
     return None
@@ -102,12 +114,76 @@ def mentioned_fields(m):
     return names
 
 
-def valuations(term, this_schema, alias_schemas, limit, extra_key=''):
+def valuations(term, this_schema, alias_schemas, limit, extra_key='', wide=None):
     """Yield ev.Env-ready (this, vars) pairs over a grid of the leaves the term mentions.
 
     Full Cartesian product when it has at most `limit` points, otherwise the
-    corners (all-first, all-second, ...) plus a deterministic sample.
+    corners (all-first, all-second, ...) plus a deterministic sample. Then `wide`
+    (default limit // 16, at least 6) valuations mixing the wide pools with the grid pools.
     """
+    yield from _grid(term, this_schema, alias_schemas, limit, extra_key)
+    nwide = max(6, limit // 16) if wide is None else wide
+    if nwide:
+        yield from _wide(term, this_schema, alias_schemas, nwide, extra_key)
+
+
+def _slots(term, this_schema, alias_schemas, wide):
+    names = mentioned_fields(term)
+    roots = []
+    if this_schema is not None:
+        roots.append((None, this_schema))
+    for a in sorted(alias_schemas):
+        roots.append((a, alias_schemas[a]))
+    slots = []  # (root, path, pool)
+    for root, sc in roots:
+        for path, ft in leaf_slots(sc):
+            if path[-1] not in names and not any(isinstance(x, str) and x in names for x in path):
+                continue
+            pool = pool_for(ft)
+            if pool:
+                if wide:
+                    pool = list(pool_for(ft, True)) + list(pool)
+                slots.append((root, path, pool))
+    return roots, slots
+
+
+def _make(roots, slots, choice):
+    per_root = {}
+    for (root, path, pool), c in zip(slots, choice):
+        per_root.setdefault(root, {})[path] = pool[c % len(pool)]
+    this = None
+    vars_ = {}
+    for root, sc in roots:
+        msg = build_message(sc, per_root.get(root, {}))
+        if root is None:
+            this = msg
+        else:
+            vars_[root] = msg
+    return this, vars_
+
+
+def _wide(term, this_schema, alias_schemas, n, extra_key=''):
+    roots, slots = _slots(term, this_schema, alias_schemas, True)
+    if not slots:
+        return
+    rng = random.Random(core.h64((repr(term), extra_key, 'wide')))
+    seen = set()
+    # first the "diagonals" over the wide part of each pool, then a sample biased to the wide values
+    for c in range(3):
+        choice = tuple(c for _ in slots)
+        if choice not in seen:
+            seen.add(choice)
+            yield _make(roots, slots, choice)
+    tries = 0
+    while len(seen) < n and tries < 4 * n:
+        tries += 1
+        choice = tuple(rng.randrange(len(p)) for _, _, p in slots)
+        if choice not in seen:
+            seen.add(choice)
+            yield _make(roots, slots, choice)
+
+
+def _grid(term, this_schema, alias_schemas, limit, extra_key=''):
     names = mentioned_fields(term)
     roots = []
     if this_schema is not None:
